@@ -167,6 +167,27 @@ def judge(prog, term, v, res, case, label="v"):
                 viol = ("fresh-vs-second-call", "two calls share a mutable container")
     if viol is None and chash(v) != before:
         viol = ("input-mutated", "the input value was modified")
+    if viol is None and label == "v" and term.depth == 0 and getattr(term, "name", "") in ("datetime", "time"):
+        # "is the same on every call": also right after an equal instant with another UTC offset was marshalled
+        import datetime as _dt
+
+        for off in (0, 60, -330):
+            tzz = _dt.timezone(_dt.timedelta(minutes=off))
+            try:
+                twin = v.astimezone(tzz) if isinstance(v, _dt.datetime) else _dt.datetime.combine(_dt.date(2020, 1, 15), v).astimezone(tzz).timetz()
+            except (OverflowError, ValueError):
+                continue
+            if twin != v or twin.utcoffset() == v.utcoffset():
+                continue
+            from ..kernel import cold as _cold
+
+            _cold.clear_all()  # the twin must be the first of the two to be formatted
+            call(m, twin)
+            o3 = call(m, v)
+            res.evals += 2
+            if not o3.ok or not same(o3.val, out):
+                viol = ("determinism-after-equal-twin", f"after marshalling the equal value {twin!r} the same call gives {short(o3.val if o3.ok else o3.exc, 60)}")
+                break
     if viol is None:
         return
     clause, why = viol
